@@ -3,8 +3,8 @@ C12 round trip, part 1: the facts the decoder appends for an emission (`kvFacts`
 `entryFacts`, …, mirroring `emit`) have the same members as the facts of the tree.
 -/
 import CueVerif.Spec.Toml
-open CueVerif.Toml.Spec
-namespace CueVerif.Toml
+open CueVerif.Toml CueVerif.Toml.Spec
+namespace CueVerif.Toml.Round
 
 /-- facts appended by the key-value pass -/
 def kvFacts (P : Path) : List (Name × Tree) → List Fact
@@ -106,4 +106,4 @@ theorem bodyFacts_sameData (fs : List (Name × Tree)) :
   have := mem_entryFacts [] x (.tbl fs) (by simp [Tree.entryIsTable, Tree.isTable])
   simpa only [entryFacts] using this
 
-end CueVerif.Toml
+end CueVerif.Toml.Round
